@@ -280,3 +280,63 @@ Definition idna_toascii_label_b (s : list N) (de : N) : Z * cursor :=
 
 (* The bytes stored, in the order of the stores. *)
 Definition written (w : cursor) : list N := map snd (rev (snd w)).
+
+(* ------------------------------------------------------------------ *)
+(* The decoder after notes/C18_fix_utf8_decode.diff (not the code of   *)
+(* the current tree; used to show what the repair buys).  Two changes: *)
+(* each of b, c, d must be a continuation byte, and a lead byte that    *)
+(* announces more bytes than are left is rejected ( *p = pe) instead of *)
+(* being re-read as a shorter form.                                     *)
+(* ------------------------------------------------------------------ *)
+Definition utf8_tail_fixed (min a b c d : N) (rest : list N) : N * list N :=
+  if negb ((N.land 192 b =? 128) && (N.land 192 c =? 128) && (N.land 192 d =? 128))
+  then (UINT_MAX, rest)
+  else
+    let b := N.land b 63 in
+    let c := N.land c 63 in
+    let d := N.land d 63 in
+    let a := N.lor (N.lor (N.lor (N.shiftl a 18) (N.shiftl b 12)) (N.shiftl c 6)) d in
+    if a <? min then (UINT_MAX, rest)
+    else if 1114111 <? a then (UINT_MAX, rest)
+    else if (55296 <=? a) && (a <=? 57343) then (UINT_MAX, rest)
+    else (a, rest).
+
+Definition utf8_decode1_slow_fixed (rest : list N) (a : N) : N * list N :=
+  if 247 <? a then (UINT_MAX, rest)
+  else
+    let case0 := (UINT_MAX, rest) in
+    let case1 :=
+      if 223 <? a then (UINT_MAX, [])            (* truncated: *p = pe *)
+      else if 191 <? a then
+        match rest with
+        | d :: r => utf8_tail_fixed 128 0 128 (N.lor 128 (N.land a 31)) d r
+        | _ => case0
+        end
+      else case0 in
+    let case2 :=
+      if 239 <? a then (UINT_MAX, [])            (* truncated: *p = pe *)
+      else if 223 <? a then
+        match rest with
+        | c :: d :: r => utf8_tail_fixed 2048 0 (N.lor 128 (N.land a 15)) c d r
+        | _ => case0
+        end
+      else case1 in
+    let dflt :=
+      if 239 <? a then
+        match rest with
+        | b :: c :: d :: r => utf8_tail_fixed 65536 (N.land a 7) b c d r
+        | _ => case0
+        end
+      else case2 in
+    match rest with
+    | [] => case0
+    | [_] => case1
+    | [_; _] => case2
+    | _ => dflt
+    end.
+
+Definition utf8_decode1_fixed (s : list N) : N * list N :=
+  match s with
+  | [] => (UINT_MAX, [])
+  | a :: rest => if a <? 128 then (a, rest) else utf8_decode1_slow_fixed rest a
+  end.
